@@ -3,7 +3,8 @@
 From Coq Require Import ZArith List Bool Arith Lia.
 From Coq Require Import QArith.
 From RV Require Import Val Syntax Rho Offline Online Sat IA Pastify Jitter Units Support Lexer Parser Elab Dense DenseSem DenseMerge DenseOnlineMerge DenseOnlineFold DenseOnlineWin DenseEval DenseWin DenseVisitor DenseSat Explain ExtZ.
-From RV Require DenseOnlineMon DenseOnlineForest DenseOnlineReset ParserDeclOracle ParserRoundtrip ParserMin.
+From RV Require DenseOnlineMon DenseOnlineForest DenseOnlineReset ParserDeclOracle ParserRoundtrip ParserMin NodeName OnlineNamed.
+From Coq Require String.
 Import ListNotations.
 
 Definition zformula := @formula ExtZVal.
@@ -208,3 +209,22 @@ Definition run_on_reset (F : list zformula) (w : ztrace) (h n : nat) : list extz
   let d := fst (mon_run ExtZArith pk F dict_init w 0 h) in
   snd (mon_run ExtZArith pk F (mon_reset F d) w h n).
 End WithPk.
+
+(* the names of all nodes of a syntax tree as rtamt prints them (NodeName.v), and whether its leaves have the assumed form *)
+Definition run_nnames := NodeName.run_nnames.
+Definition run_ident := NodeName.run_ident.
+
+(* the online monitor keyed by node names (OnlineNamed.v) on a forest of syntax nodes; None: a bound is not a multiple of the
+   sampling period, or a future operator (set_ast raises) *)
+Fixpoint var_index (l : list (String.string * String.string)) (v f : String.string) (i : nat) : nat :=
+  match l with
+  | [] => i
+  | (a, b) :: r => if String.eqb a v && String.eqb b f then i else var_index r v f (S i)
+  end.
+Definition run_nmon (vars : list (String.string * String.string)) (cv : String.string -> extz) (du : Units.tunit) (p : Z) (pu : Units.tunit)
+  (F : list NodeName.node) (w : ztrace) (n : nat) : option (list extz) :=
+  let vidx := fun v f => var_index vars v f 0 in
+  let bnd := OnlineNamed.bnd_of du p pu in
+  if forallb (fun x => match @NodeName.erase ExtZVal vidx cv du p pu x with Some g => past_only g | None => false end) F
+  then Some (snd (OnlineNamed.nmon_run ExtZArith pk_std vidx cv bnd F (OnlineNamed.ndict_init vidx cv bnd F) w 0 n))
+  else None.
